@@ -78,6 +78,23 @@ def is_feasible_call(e):
     return isinstance(e, ast.Call) and call_name(e) == FEAS
 
 
+def base_array(fl, e, node):
+    """name of the local array an expression denotes, looked up through result temporaries (`t = work; check(t)`): follows
+    Name = Name definitions with a single reaching definition"""
+    nd, steps = node, 0
+    while isinstance(e, ast.Name) and steps < 6:
+        ds = fl.defs_at(nd, e.id)
+        if len(ds) != 1:
+            break
+        d = next(iter(ds))
+        how = fl.def_how(d, e.id)
+        if how[0] == "assign" and isinstance(how[1], ast.Name):
+            e, nd, steps = how[1], d, steps + 1
+        else:
+            break
+    return dotted(e)
+
+
 def facts_through_temps(fl, node):
     """facts_at with boolean temporaries looked through: `ok = feasible(s, infra); if ok:` is the test `if feasible(s, infra):` (the
     call keeps the names of its arguments - only the temporaries holding the *result* are followed)"""
@@ -470,7 +487,7 @@ def rule_tentative(ck):
             ok = False
             for a, t in fs:
                 if t and a.args:
-                    nm = dotted(a.args[0])
+                    nm = base_array(ml, a.args[0], r) if a.args else None
                     sts = [n for n in ml.cfg.nodes if n.kind == "stmt" and isinstance(n.stmt, ast.Assign) and isinstance(n.stmt.targets[0], ast.Subscript)
                            and dotted(n.stmt.targets[0].value) == nm and canon(n.stmt.targets[0].slice) == "station_index" and canon(n.stmt.value) == "ub" and ml.cfg.dominates(n, r)]
                     cp = canon(ml.expand(ast.Name(id=nm, ctx=ast.Load()), r)) in ("copy(schedule)", "schedule.copy()", "np.copy(schedule)", "np.array(schedule)")
@@ -510,9 +527,9 @@ def rule_tentative(ck):
                 ck.violation("C07.R3", bi, e, "recursive step not decided by a feasibility check", sink="bisect:unchecked")
         else:
             ck.require(canon(e) == lo, "C07.R3", bi, r.stmt, ok="returns its lower end (always feasible)", bad=f"the bisection returns `{canon(e)}`; only the lower end is known feasible", sink="bisect:return")
-    chk = [c for n, c in calls_in(bl, FEAS)]
-    for c in chk:
-        nm = dotted(c.args[0]) if c.args else None
+    chk = [(n, c) for n, c in calls_in(bl, FEAS)]
+    for cn_, c in chk:
+        nm = base_array(bl, c.args[0], cn_) if c.args else None
         sts = [n for n in bl.cfg.nodes if n.kind == "stmt" and isinstance(n.stmt, ast.Assign) and isinstance(n.stmt.targets[0], ast.Subscript) and dotted(n.stmt.targets[0].value) == nm]
         ok = bool(sts) and all(canon(n.stmt.targets[0].slice) in idx_ok and canon(bl.expand(n.stmt.value, n)) in mids for n in sts)
         ck.require(ok, "C07.R3", bi, c, ok="the checked schedule holds mid at the station", bad="the schedule checked by the bisection does not hold the midpoint at the station index", sink="bisect:checked-schedule")
